@@ -2,6 +2,9 @@ package envelopep
 
 import (
 	"bytes"
+	"fmt"
+	"strings"
+	"sync"
 	"testing"
 
 	"github.com/aperturerobotics/bifrost/crypto"
@@ -167,11 +170,19 @@ func TestC16Replay(t *testing.T) { vstat.Replay(t, specC16) }
 
 type c17Case struct {
 	Cfg envCfg `json:"cfg"`
+	// Par > 0: that many goroutines seal and unseal envelopes of this configuration (each with its own payload and
+	// context) at the same time, Reps times each
+	Par  int `json:"par,omitempty"`
+	Reps int `json:"reps,omitempty"`
 }
 
 func genC17(t *rapid.T) c17Case {
 	c := c17Case{Cfg: genCfg(t)}
 	c.Cfg.BadIndex = false
+	if rapid.IntRange(0, 3).Draw(t, "par") == 0 {
+		c.Par = rapid.IntRange(2, 6).Draw(t, "npar")
+		c.Reps = rapid.IntRange(5, 30).Draw(t, "reps")
+	}
 	return c
 }
 
@@ -219,6 +230,57 @@ func checkC17(c c17Case) (o vstat.Outcome) {
 	var privs []crypto.PrivKey
 	for i := 0; i < c.Cfg.NKeys; i++ {
 		privs = append(privs, gen.Key(i))
+	}
+	if c.Par > 0 {
+		// unrelated envelopes handled at the same time do not disturb each other
+		o.Classes = append(o.Classes, "concurrent-seal-and-unseal")
+		o.NonTrivial = true
+		var wg sync.WaitGroup
+		var mu sync.Mutex
+		var first *vstat.Violation
+		for g := 0; g < c.Par; g++ {
+			wg.Add(1)
+			go func(g int) {
+				defer wg.Done()
+				defer func() {
+					if r := recover(); r != nil {
+						mu.Lock()
+						if first == nil {
+							first = vstat.Viol("panic/concurrent-envelopes", "%v", r)
+						}
+						mu.Unlock()
+					}
+				}()
+				cfg := c.Cfg
+				for rep := 0; rep < c.Reps; rep++ {
+					cfg.Ctx = fmt.Sprintf("%s/goroutine-%d/%d", c.Cfg.Ctx, g, rep)
+					cfg.Payload = []byte(fmt.Sprintf("payload-%d-%d-%s", g, rep, strings.Repeat("x", g*7)))
+					env2, err2, v2 := cfg.build()
+					if v2 != nil || err2 != nil {
+						mu.Lock()
+						if first == nil {
+							first = vstat.Viol("concurrent-build-differs", "a configuration accepted alone was not accepted while other envelopes were being sealed: %v %v", err2, v2)
+						}
+						mu.Unlock()
+						return
+					}
+					payload, _, uerr := envelope.UnlockEnvelope(cfg.Ctx, env2, privs)
+					if uerr != nil || !bytes.Equal(payload, cfg.Payload) {
+						mu.Lock()
+						if first == nil {
+							first = vstat.Viol("accepted-config-does-not-open", "sealed while %d other goroutines sealed and unsealed unrelated envelopes: all recipient keys offered but unlock failed (err=%v)", c.Par-1, uerr)
+						}
+						mu.Unlock()
+						return
+					}
+				}
+			}(g)
+		}
+		wg.Wait()
+		if first != nil {
+			o.V = first
+			return
+		}
 	}
 	o.V = vstat.Guard("UnlockEnvelope", func() *vstat.Violation {
 		// the recipients first try one after the other (each alone), then together - on the same envelope object
